@@ -20,6 +20,7 @@ ap.add_argument("--tier", default="quick")
 ap.add_argument("--props", default="own")
 ap.add_argument("--seed", default="1")
 ap.add_argument("--dir", default=os.path.join(VERIF, "seeded"))
+ap.add_argument("--save-regressions", action="store_true")
 ap.add_argument("names", nargs="*")
 args = ap.parse_args()
 
@@ -66,6 +67,15 @@ def run_one(name):
                     sig = line[line.find("["):line.find("]") + 1]
                     break
             res.append((name, pid, verdict, sig, round(time.time() - t0, 1)))
+            if verdict == "VIOLATION" and args.save_regressions:
+                for line in p.stdout.splitlines():
+                    if line.startswith("VIOLATION property=") and "replay=" in line:
+                        rp = line.split("replay=", 1)[1].strip()
+                        if rp and os.path.exists(rp) and "/regressions/" not in rp:
+                            dst = os.path.join(VERIF, "regressions", pid)
+                            os.makedirs(dst, exist_ok=True)
+                            shutil.copyfile(rp, os.path.join(dst, name + ".json"))
+                        break
             with open(out_path, "a") as f:
                 f.write(json.dumps({"mutant": name, "property": pid, "tier": args.tier, "seed": args.seed, "verdict": verdict, "signature": sig, "wall_s": round(time.time() - t0, 1), "tail": p.stdout[-1500:] if verdict != "pass" else ""}) + "\n")
     finally:
